@@ -188,6 +188,38 @@ class IslandModel:
                                             right=e.args[1]), depth + 1)
         return None
 
+    def other_label_term(self, p_):
+        """labels != id,  or the complement of the exact own-pixel mask"""
+        if isinstance(p_, ast.Compare) and len(p_.ops) == 1 and \
+                isinstance(p_.ops[0], ast.NotEq) and self.label_compare(p_):
+            return True
+        inner = None
+        if isinstance(p_, ast.UnaryOp) and isinstance(p_.op, ast.Invert):
+            inner = p_.operand
+        elif isinstance(p_, ast.Call) and p_.args and norm(p_.func) in (
+                "np.logical_not", "np.bitwise_not", "np.invert",
+                "numpy.logical_not"):
+            inner = p_.args[0]
+        return inner is not None and self.narrowing(inner) == []
+
+    def blanking_masks(self):
+        """[(blanking statement  box[mask] = nan, mask expression resolved to
+        its definition)] inside the island loop"""
+        out = []
+        for st in ast.walk(self.loop):
+            if isinstance(st, ast.Assign) and \
+                    isinstance(st.targets[0], ast.Subscript) and \
+                    norm(st.value) in ("np.nan", "numpy.nan"):
+                mk = st.targets[0].slice
+                if isinstance(mk, ast.Name):
+                    defs = [d.value for d in ast.walk(self.loop)
+                            if isinstance(d, ast.Assign) and
+                            norm(d.targets[0]) == mk.id]
+                    if len(defs) == 1:
+                        mk = defs[0]
+                out.append((st, mk))
+        return out
+
     def restricted(self, e, own=None):
         own = self.own_names() if own is None else own
         return self.label_compare(e) or any(
